@@ -690,6 +690,25 @@ class Interp:
         for x, reflected in ((l, False), (r, True)):
             if isinstance(x, Obj) and "__binop__" in x.fields:
                 return self.call(x.fields["__binop__"], [Const(type(op).__name__), r if not reflected else l, Const(reflected)], {}, None)
+        if isinstance(e.op, (ast.BitAnd, ast.BitOr, ast.Sub, ast.BitXor)):
+            # set algebra on sets and dict key views of constants
+            def as_set(x):
+                if isinstance(x, SetS) or (isinstance(x, ListLit) and getattr(x, "pyname", None) == "dict_keys"):
+                    return [y.v for y in x.elts] if all(isinstance(y, Const) for y in x.elts) else None
+                return False
+            sl, sr = as_set(l), as_set(r)
+            if sl is not False and sr is not False and not (isinstance(e.op, ast.BitOr) and isinstance(l, DictS)):
+                if sl is None or sr is None:
+                    return Top("set operation on symbolic members")
+                if isinstance(e.op, ast.BitAnd):
+                    out = [x for x in sl if x in sr]
+                elif isinstance(e.op, ast.BitOr):
+                    out = sl + [x for x in sr if x not in sl]
+                elif isinstance(e.op, ast.Sub):
+                    out = [x for x in sl if x not in sr]
+                else:
+                    out = [x for x in sl if x not in sr] + [x for x in sr if x not in sl]
+                return SetS([Const(x) for x in out])
         if isinstance(e.op, ast.BitOr):
             return self.dict_union(l, r)
         if isinstance(e.op, ast.Add):
@@ -1407,6 +1426,8 @@ class Interp:
             for it in st.items:
                 cm = self.eval(it.context_expr, sc)
                 val = cm
+                if self.strict and isinstance(cm, (Choice, Top)):
+                    raise ShapeError(f"`with {short(it.context_expr, 40)}`: which context manager is entered cannot be decided ({cm!r:.60})")
                 if isinstance(cm, Obj):
                     ent = cm.fields.get("__enter__") or (self.getattr(cm, "__enter__") if getattr(cm, "klass", None) is not None and self.find_class_attr(cm.klass[0], cm.klass[1], "__enter__") else None)
                     if ent is not None:
